@@ -110,6 +110,9 @@ class C04(ProgramProperty):
         steps.append({"op": "load_reverse", "dst": 3, "data": rev})
         ctx = [[k, {"s": v}] if rng.random() < 0.7 else [k, {"pd": v}] for k, v in pm]
         steps.append({"op": "load_jsonld", "dst": 4, "data": ctx})
+        # the extended-prefix-map loader on the very same collection (dicts / Record objects / module-level function)
+        steps.append(dict(init_step(9, recs), via=rng.choice(["epm_dicts", "epm_records", "load_epm"])))
+        steps += [q(9, "records"), q(9, "bimap")]
         # history stream: a converter acquires a synonym by merge, then its records are reused with a record
         # that claims the acquired synonym (the strict check must look at the records as they are now)
         if not kinds and len(recs) >= 2 and rng.random() < 0.5:
